@@ -516,9 +516,14 @@ class Body:
         return 'Body(%s)' % self.id
 
 
+import itertools
+_FACTS_UID = itertools.count(1)
+
+
 class Facts:
     def __init__(self, directory, crates=('quinn_proto', 'quinn', 'quinn_udp'), tag=''):
         self.dir = directory
+        self.uid = next(_FACTS_UID)      # cache key for per-fact-base memo tables (id() can be reused after a Facts is freed)
         self.bodies = {}
         self.by_short = {}
         self.adts = {}
